@@ -54,7 +54,9 @@ structure Agent where
   lastId : Nat
   disk : Bool                -- --cache-dir given
   saveFirst : Bool           -- SaveSecondsImmediately
-  memFull : Bool             -- historicBucketsDataSize at its limit
+  memSize : Nat              -- historicBucketsDataSize, in units of one second's compressed data (ballast included)
+  ballast : Nat              -- part of memSize that stands for other queued data (an input: lets the limit be reached cheaply)
+  diskOk : Bool              -- config.MaxHistoricDiskSize > 0 and the disk accepts writes
   flights : List Flight
   live : List Live           -- three replicas of the shard
   now : Nat                  -- the agent's wall clock (seconds): read by sendRecent and sendHistoric
@@ -115,7 +117,7 @@ deriving DecidableEq, Repr
 
 /-! ### agent: disk cache -/
 
-def canPut (a : Agent) (c : Cbd) : Bool := a.disk && c.id == 0
+def canPut (a : Agent) (c : Cbd) : Bool := a.disk && a.diskOk && c.id == 0
 
 /-- diskCachePutWithLog -/
 def diskPut (a : Agent) (c : Cbd) : Agent × Cbd :=
@@ -127,14 +129,18 @@ def diskPut (a : Agent) (c : Cbd) : Agent × Cbd :=
 def diskErase (a : Agent) (id : Nat) : Agent :=
   if id == 0 then a else { a with recs := a.recs.filter (fun r => r.id != id) }
 
-def overflows (a : Agent) (c : Cbd) : Bool := a.memFull && c.mem
+/-- MaxHistoricBucketsMemorySize / NumShards, in the same units -/
+def memLimit : Nat := 1000
+/-- len(cbd.data) -/
+def sz (c : Cbd) : Nat := if c.mem then 1 else 0
+def overflows (a : Agent) (c : Cbd) : Bool := decide (a.memSize + sz c > memLimit)
 
 /-- appendHistoricBucketsToSend -/
 def appendHist (a : Agent) (c : Cbd) : Agent :=
   if overflows a c then
     if c.id == 0 then { a with dropped := a.dropped ++ [c.sec] }
     else { a with hist := a.hist ++ [{ c with mem := false }] }
-  else { a with hist := a.hist ++ [c] }
+  else { a with hist := a.hist ++ [c], memSize := a.memSize + sz c }
 
 def assignFirstUnread (id : Nat) : List Rec → Option (Nat × List Rec)
   | [] => none
@@ -177,7 +183,7 @@ def pop (a : Agent) (now : Nat) : Agent × Option Cbd :=
     | none => (a, none)
     | some c =>
       if inFuture now c then (a, none)
-      else (readNext { a with hist := swapRemove a.hist i }, some c)
+      else (readNext { a with hist := swapRemove a.hist i, memSize := a.memSize - sz c }, some c)
 
 /-- checkOutOfWindow (the boolean; the caller erases) -/
 def outOfWindow (now t w : Nat) : Bool := !(decide (now < w) || decide (t ≥ now - w))
@@ -351,7 +357,8 @@ inductive Op
   | down (r : Nat)                     -- replica r dies (memory lost, connections reset)
   | up (r now : Nat)                   -- replica r (re)starts at `now`
   | agentRestart (crash : Bool)        -- agent process stops (graceful: senders cancelled; crash: killed) and starts again
-  | mem (full : Bool)                  -- historic memory budget exhausted / free
+  | ballast (k : Nat)                  -- other queued data now takes k units of the historic memory budget
+  | diskOk (b : Bool)                  -- disk cache switched off/on at run time (MaxHistoricDiskSize = 0, write errors)
   | bad (r : Nat)                      -- an undecodable sendSourceBucket3 request reaches replica r
 deriving DecidableEq, Repr
 
@@ -525,13 +532,13 @@ def flushFlights : List Flight → Agent → Agent
 
 def memOnly (a : Agent) (graceful : Bool) : List Nat :=
   ((a.hist.filter (fun c => c.id == 0)).map (·.sec)) ++
-  ((a.flights.filter (fun f => f.cbd.id == 0 && (f.historic || !graceful || !a.disk))).map (·.cbd.sec))
+  ((a.flights.filter (fun f => f.cbd.id == 0 && (f.historic || !graceful || !a.disk || !a.diskOk))).map (·.cbd.sec))
 
 def stepAgentRestart (s : State) (crash : Bool) : State × List Ev :=
   let lost := memOnly s.ag (!crash)
   let a := if crash then s.ag else flushFlights s.ag.flights s.ag
   let rids := s.ag.flights.map (·.rid)
-  let a' : Agent := { a with hist := [], flights := [], recs := resetIds a.recs, lastId := 0, memFull := false,
+  let a' : Agent := { a with hist := [], flights := [], recs := resetIds a.recs, lastId := 0, memSize := 0, ballast := 0, diskOk := true,
                              live := a.live.map (fun _ => { alive := true, last := [] }), lostMem := a.lostMem ++ lost }
   ({ s with ag := readN startupReads a', aggs := s.aggs.map (fun g => rids.foldl unpark g),
             resps := s.resps.filter (fun x => !rids.contains x.rid) }, [])
@@ -553,11 +560,12 @@ def step (s : State) : Op → State × List Ev
   | .down r => stepDown s r
   | .up r now => stepUp s r now
   | .agentRestart crash => stepAgentRestart s crash
-  | .mem full => ({ s with ag := { s.ag with memFull := full } }, [])
+  | .ballast k => ({ s with ag := { s.ag with memSize := s.ag.memSize - s.ag.ballast + k, ballast := k } }, [])
+  | .diskOk b => ({ s with ag := { s.ag with diskOk := b } }, [])
   | .bad r => stepBad s r
 
 def initAgent (disk saveFirst : Bool) (now window : Nat) : Agent :=
-  { hist := [], recs := [], lastId := 0, disk := disk, saveFirst := saveFirst, memFull := false, flights := [],
+  { hist := [], recs := [], lastId := 0, disk := disk, saveFirst := saveFirst, memSize := 0, ballast := 0, diskOk := true, flights := [],
     live := [⟨true, []⟩, ⟨true, []⟩, ⟨true, []⟩], now := now, window := window, dropped := [], oow := 0, lostMem := [] }
 
 def init (disk saveFirst : Bool) (agentNow window shortWindow aggNow : Nat) : State :=
@@ -567,5 +575,59 @@ def init (disk saveFirst : Bool) (agentNow window shortWindow aggNow : Nat) : St
     inserted := [], rejected := [], flushed := [] }
 
 def run (s : State) (ops : List Op) : State := ops.foldl (fun s o => (step s o).1) s
+
+
+/-! ### wake-up discipline of the historic consumers (goSendHistoric ×N, goEraseHistoric) on `Shard.cond`
+
+  A consumer holds `s.mu`, calls popOldestHistoricSecondLocked(now) and, if that fails, `cond.Wait()`s (atomically).
+  `cond.Signal()` wakes one waiting consumer, and is lost when nobody waits. Whether the head of the queue can be popped
+  depends on the queue AND on the clock (a second still in the future is not popped), so both must signal. -/
+namespace Wake
+
+structure W where
+  clock : Nat
+  hist : List Nat           -- seconds in historicBucketsToSend
+  awake : Nat               -- consumers that will call pop again before they wait
+  asleep : Nat              -- consumers in cond.Wait()
+deriving DecidableEq, Repr
+
+inductive WOp
+  | second                  -- the wall clock reaches the next second and flushBuckets runs
+  | consumer                -- an awake consumer takes the mutex: pops the head if it can, otherwise waits
+  | append (t : Nat)        -- appendHistoricBucketsToSend
+deriving DecidableEq, Repr
+
+def minOf : List Nat → Option Nat
+  | [] => none
+  | t :: ts => match minOf ts with
+    | none => some t
+    | some m => some (if t < m then t else m)
+
+def future (now t : Nat) : Bool := decide (t ≥ now) && decide (t ≤ now + maxFutureSecondsOnDisk)
+
+/-- popOldestHistoricSecondLocked would succeed -/
+def poppable (s : W) : Bool := match minOf s.hist with | none => false | some m => !future s.clock m
+
+/-- cond.Signal() -/
+def signal (s : W) : W := if s.asleep > 0 then { s with asleep := s.asleep - 1, awake := s.awake + 1 } else s
+
+/-- `flushSignals`: does flushBuckets call cond.Signal() when CurrentTime advances (regenerated from /repo) -/
+def step (flushSignals : Bool) (s : W) : WOp → W
+  | .second => let s' := { s with clock := s.clock + 1 }; if flushSignals then signal s' else s'
+  | .consumer =>
+    if s.awake = 0 then s
+    else match minOf s.hist with
+      | none => { s with awake := s.awake - 1, asleep := s.asleep + 1 }
+      | some m => if future s.clock m then { s with awake := s.awake - 1, asleep := s.asleep + 1 }
+                  else { s with hist := s.hist.erase m }
+  | .append t => signal { s with hist := s.hist ++ [t] }
+
+def run (flushSignals : Bool) (s : W) (ops : List WOp) : W := ops.foldl (step flushSignals) s
+
+/-- the functions of agent_shard_send.go that signal/broadcast `s.cond`, as the source says now -/
+def flushSignalsNow : Bool := condSignalSites.contains "flushBuckets"
+def appendSignalsNow : Bool := condSignalSites.contains "appendHistoricBucketsToSend"
+
+end Wake
 
 end SH.Delivery
